@@ -95,7 +95,8 @@ def run_c17(ctx):
                 "treap; per-thread priority streams and treap observables recorded; the reference stream comes from the same code on one "
                 "thread in a fresh process. TreapRaceTrace accepts iff results equal the solo results and the streams are explained by "
                 "PerThread (prefix of one of the reference streams: stream i is what the (i+1)-th thread to create a node observes alone) or SharedAtomic (partition of a reference prefix, walked value by value). "
-                "Non-trivial = a thread stream of >= 1000 draws. Schedules are sampled by stress, not enumerated: the check can miss a "
+                "Plus 200 (thorough 1500) rounds of 16 fresh threads released together with 4 draws each (the moment the per-thread generators come into being), "
+                "where additionally no two threads may be explainable only by the very same reference stream. Non-trivial = a thread stream of >= 1000 draws. Schedules are sampled by stress, not enumerated: the check can miss a "
                 "race, it cannot invent one.")
     dev = ctx.build()
     rel = ctx.build(release=True)
@@ -151,6 +152,29 @@ def run_c17(ctx):
                 continue
         nontrivial += threads if draws >= 1000 else 0
         os.remove(trace)
+    # the moment per-thread generators come into being: many rounds of fresh threads released together, a few draws each
+    rounds_n, thr, per = ctx.q((200, 16, 4), (1500, 16, 4))
+    for j, binary in enumerate((rel, dev)):
+        solo = ctx.path("starts-solo-%d.ndjson" % j)
+        race = ctx.path("starts-race-%d.ndjson" % j)
+        ctx.drv(binary, ["treap", "record-solo-streams", "--streams", str(rounds_n * thr), "--per", str(per), "--out", solo])
+        ctx.drv(binary, ["treap", "record-starts", "--rounds", str(rounds_n), "--threads", str(thr), "--per", str(per), "--out", race])
+        trace = ctx.path("trace-starts-%d.ndjson" % j)
+        with open(trace, "w") as out:
+            for q in (solo, race):
+                with open(q) as f:
+                    shutil.copyfileobj(f, out)
+        os.remove(solo)
+        os.remove(race)
+        bad = ctx.validate("treap", "TreapStartsTrace", ctx.cfg("treap", "TreapStartsTrace.cfg"), trace, stage="starts-%d" % j, runs=rounds_n * thr,
+                           keyfn=race_key, record_violations=False, need_note="streams judged", timeout=ctx.q(900, 3600))
+        for v in bad:
+            v["detail"]["replay_note"] = "schedule-dependent: re-run the check; %d rounds of %d fresh threads x %d draws, build=%s" % (rounds_n, thr, per, "release" if binary == rel else "debug")
+        ctx.violations += bad
+        if bad:
+            os.replace(trace, ctx.path("violating-starts-trace-%d.ndjson" % j))
+        else:
+            os.remove(trace)
     ctx.distinct_nontrivial = nontrivial
     ctx.assumptions += [
         "real thread schedules are sampled (barrier-released stress on 16 cores), not enumerated; enumeration exists for the TLA+ design only",
